@@ -506,9 +506,25 @@ class Command(BaseCommand):
         passed to the command.
         """
         database_name = self.evolver.database_name
+        tasks = list(self.evolver.tasks)
+
+        # List the apps in the order in which their evolutions would be
+        # applied (which follows the dependencies between evolutions), rather
+        # than the order in which the tasks were queued.
+        state = getattr(self.evolver, '_evolve_app_task_state', None) or {}
+        ordered_tasks = []
+
+        for batch in state.get('batches', []):
+            for task in batch.get('task_evolutions', {}):
+                if task not in ordered_tasks:
+                    ordered_tasks.append(task)
+
+        tasks.sort(key=lambda task: (ordered_tasks.index(task)
+                                     if task in ordered_tasks
+                                     else len(ordered_tasks)))
 
         with SQLExecutor(database=database_name) as executor:
-            for i, task in enumerate(self.evolver.tasks):
+            for i, task in enumerate(tasks):
                 if task.sql:
                     if i > 0:
                         self.stdout.write('\n')
